@@ -185,7 +185,7 @@ class C14(Prop):
     theorems = ["labelToInt_intCast", "ixToRaw_rawToIx", "dsTake_perdim_commutes", "fullslice_both_modes", "DSV.setItem_shared", "DSV.takeAxisPosDs_spec", "DSV.takeAxisPosDs_ok", "DSV.sortAxisDs_spec", "DSV.reindexAxisDs_spec", "DSV.takeDs_spec", "DSV.takeDs_sameData", "DSV.firstDraft_counterexample",
                 "DSV.mapVarsDs_spec", "DSV.unaryOpDs_spec", "DSV.rbinaryOpDs_scalar_spec", "DSV.rbinaryOpDs_other", "DSV.rbinaryOpDs_not_binaryOpDs",
                 "DSV.stackDsA_noalign", "DSV.concatenateDsA_noalign", "DSV.stackDsA_spec",
-                "DSV.takeDsMulti_attrs", "DSV.takeAxisIntsDs_spec", "DSV.takeAxisIntsDs_ok", "DSV.takePos_modes", "DSV.reindexAxisDsM_spec",
+                "DSV.takeDsMulti_attrs", "DSV.takeDsMulti_spec_raw", "DSV.takeDsMulti_spec_take", "DSV.takeRaw_eq_take", "DSV.getIndices_mask", "DSV.takeDsMulti_dup_counterexample", "DSV.takeRaw_axes_sub", "DSV.takeDsMulti_closed", "DSV.foldlM_takeStep", "DSV.takeAxisIntsDs_spec", "DSV.takeAxisIntsDs_ok", "DSV.takePos_modes", "DSV.reindexAxisDsM_spec",
                 "DSV.reindexAxisDsM_default", "DSV.reindexAxisDsM_raise", "DSV.reindexAxisDsM_ok", "DSV.reduceAllDs_spec",
                 "DSV.concatenateDsA_spec", "DSV.rbinaryOpDs_ok", "DSV.rbinaryOpDs_ok_iff"]
     rule = ("Datasets of 1-4 variables whose dimension sets overlap partially (some variables lack the operated dimension, "
